@@ -40,6 +40,8 @@ def custom_vocab(rng, unknown_ok=None, n_macros=12, n_envs=5, full_cover_index=N
     macros['txt'] = D.M('{', ['text'])
     macros['mth'] = D.M('{', ['math'])
     macros['txto'] = D.M('[{', ['text', 'text'])
+    macros['vv'] = D.M('v')
+    macros['vvb'] = D.M(['{', 'v'])
     macros['\\'] = D.M(['*', '[nospace'])
     macros['&'] = D.M('')
     macros['%'] = D.M('')
